@@ -85,7 +85,9 @@ func ruleC06ResyncExits(c *Ctx) {
 				return true
 			})
 			c.verdictIf(seeks >= 2, rule, f, base+" re-positions", loop.Pos(), "each iteration reads the drive offset and seeks to the re-derived block boundary before reading a header", "an iteration reads the next header without first querying the offset and seeking to the re-derived position")
-			// exits after the header read: `if err != nil { if err == io.EOF { break }; continue }; break`
+			// exits after the header read. The original shape is `if err != nil { if err == io.EOF { break }; continue }; break`;
+			// what matters is: a parse error goes round again (continue), end of file and a parsed header leave the loop
+			// (break, return, or a goto out of it), and the parse error itself is never returned.
 			nbreak, ncont, nretParse := 0, 0, 0
 			var after []ast.Stmt
 			for i, st := range loop.Body.List {
@@ -93,23 +95,52 @@ func ruleC06ResyncExits(c *Ctx) {
 					after = loop.Body.List[i+1:]
 				}
 			}
+			errObj := objOfIdent(info, nextAssign.Lhs[len(nextAssign.Lhs)-1])
 			eofBreak := false
+			contsExcludeEOF := true
 			for _, st := range after {
 				ast.Inspect(st, func(m ast.Node) bool {
 					switch x := m.(type) {
+					case *ast.FuncLit:
+						return false
 					case *ast.BranchStmt:
-						if x.Tok == token.BREAK {
+						if x.Tok == token.BREAK || x.Tok == token.GOTO {
 							nbreak++
 						}
 						if x.Tok == token.CONTINUE {
 							ncont++
+							// is this retry known not to happen at end of file?
+							excl := false
+							for _, cl := range enclosingCondsFlow(info, loop.Body, x) {
+								for _, ft := range condFacts(cl.e, cl.pos) {
+									if known, eq := sentinelFact(info, ft, eof); known && !eq {
+										excl = true
+									}
+								}
+							}
+							if !excl {
+								contsExcludeEOF = false
+							}
 						}
 					case *ast.ReturnStmt:
-						nretParse++
+						returnsParseErr := false
+						for _, r := range x.Results {
+							if errObj != nil && objOfIdent(info, r) == errObj {
+								returnsParseErr = true
+							}
+						}
+						if returnsParseErr {
+							nretParse++
+						} else {
+							nbreak++
+						}
 					case *ast.IfStmt:
 						if known, eq := sentinelCond(info, x.Cond, eof); known && eq {
 							if len(x.Body.List) > 0 {
-								if br, ok := x.Body.List[len(x.Body.List)-1].(*ast.BranchStmt); ok && br.Tok == token.BREAK {
+								if br, ok := x.Body.List[len(x.Body.List)-1].(*ast.BranchStmt); ok && (br.Tok == token.BREAK || br.Tok == token.GOTO) {
+									eofBreak = true
+								}
+								if _, ok := x.Body.List[len(x.Body.List)-1].(*ast.ReturnStmt); ok {
 									eofBreak = true
 								}
 							}
@@ -117,6 +148,10 @@ func ruleC06ResyncExits(c *Ctx) {
 					}
 					return true
 				})
+			}
+			if !eofBreak && ncont >= 1 && contsExcludeEOF && nbreak >= 1 {
+				eofBreak = true // every retry is under `err != io.EOF`: end of file falls through to the exit
+				nbreak++        // (that exit serves both "end of file" and "header parsed")
 			}
 			c.verdictIf(eofBreak, rule, f, base+" EOF ends it", nextAssign.Pos(), "end of file while resynchronising ends the loop", "end of file while resynchronising does not leave the loop: a torn tail makes the rebuild spin")
 			c.verdictIf(nretParse == 0, rule, f, base+" parse error stays inside", nextAssign.Pos(), "a header-parse error is never returned from the loop", "a header-parse error escapes the resynchronisation loop: one torn record aborts the whole rebuild")
@@ -136,7 +171,7 @@ func ruleC06HeaderBeforeContent(c *Ctx) {
 	}
 	info := f.Pkg.TypesInfo
 	fl := c.flow(f)
-	offset := paramVar(f, "offset")
+	offset := roleVar(f, "offset")
 	// per loop iteration: after a header was read, the content skip is reached only (a) across the success edge of
 	// indexHeader, or (b) across the edge that says this header is before the caller's offset and is not to be indexed
 	// (`i >= offset` false / `i < offset` true). Decided as a must-dataflow; reading the next header resets the fact.
